@@ -261,15 +261,12 @@ Section Call.
      it also returns the module that is active after parsing: `.module(:m)` switches it AT PARSE TIME *)
   Variable parse : text -> module -> expr * module.
 
-  Definition key_of (st : istate) (t : text) : ckey := (t, if keymod then cur st else 0).
+  (* a text whose parse leaves another module active than it found is not stored in the parse cache
+     (Generated.parse_cache_skips_switching_texts; fix 012f393).  Before the fix it was stored, and served
+     from the cache it did not switch the module. *)
+  Variable skip_sw : bool.
 
-  (* a text whose parse switches the module is served from the cache: the parser does not run, so the
-     switch is lost (known finding C04-cached-module-switch) *)
-  Definition cached_switch (st : istate) (t : text) : bool :=
-    match plookup (key_of st t) (pcache st) with
-    | Some _ => negb (snd (parse t (cur st)) =? cur st)
-    | None => false
-    end.
+  Definition key_of (st : istate) (t : text) : ckey := (t, if keymod then cur st else 0).
 
   (* __call__ after the parse cache: compiled cache, compiled attempt, interpreter *)
   Definition run_tree (k : ckey) (e : expr) (st0 : istate) : res * istate :=
@@ -290,20 +287,14 @@ Section Call.
     match plookup k (pcache st) with
     | Some e => run_tree k e st
     | None => let (e, m') := parse t (cur st) in
-              run_tree k e (mk_istate (vars st) m' ((k, e) :: pcache st) (ccache st) (memo st))
+              let pc := if skip_sw && negb (m' =? cur st) then pcache st else (k, e) :: pcache st in
+              run_tree k e (mk_istate (vars st) m' pc (ccache st) (memo st))
     end.
 
   Fixpoint state_after (st : istate) (h : list text) : istate :=
     match h with
     | [] => st
     | t :: r => state_after (snd (run_cached st t)) r
-    end.
-
-  (* no step of the history is in the known-finding class *)
-  Fixpoint no_cached_switch (st : istate) (h : list text) : bool :=
-    match h with
-    | [] => true
-    | t :: r => negb (cached_switch st t) && no_cached_switch (snd (run_cached st t)) r
     end.
 
   Fixpoint run_history (st : istate) (h : list text) : list (res * store) :=
